@@ -266,6 +266,12 @@ impl Property for C15 {
     fn enumerate(&self, tier: Tier) -> Option<(String, Box<dyn Iterator<Item = Program> + Send>)> {
         Some(enumerate_scope(tier == Tier::Quick))
     }
+    /// the same search again, a fifth of the cases, in the overflow-checked build of the harness
+    /// (debug assertions and overflow checks of the library on): "never a panic" is a claim about
+    /// every build profile
+    fn epilogue(&self, tier: Tier, seed: u64, _counters: &std::collections::BTreeMap<String, u64>, extra: &mut std::collections::BTreeMap<String, serde_json::Value>) -> Result<(), (Fail, serde_json::Value)> {
+        crate::engine::run_checked_profile_n("C15", tier, seed, Some((self.cases(tier) / 5).max(50)), extra)
+    }
     fn check(&self, case: &Program) -> Check {
         check_program(case)
     }
